@@ -3,7 +3,7 @@
    n >= 1 successors the item itself (a plain value) resp. its own reader of the copies
    streamReader.copy makes (a stream) — the model's [s_copy] of Model/StreamOps.v, which
    [concat_copy] is about. *)
-From Eino Require Import Base.Util Model.Paradigm Model.StreamOps Model.StreamGenLib.
+From Eino Require Import Base.Util Model.Paradigm Model.StreamOps Model.C04GenLib.
 From Eino Require Gen.C04Copy.
 
 Lemma mapM_const : forall {A B} (b : B) (l : list A),
